@@ -63,8 +63,8 @@ const VM_TABLE: &[(&str, Cover)] = &[
     ("vm.list.index_assign l[i] = x", Cover::Exact(&["l.set"])),
     ("vm.list.display '{l}' / print / to_string", Cover::Exact(&["l.display"])),
     ("vm.list.debug '{l:?}'", Cover::Exact(&["l.debug"])),
-    ("vm.list.equal l == x", Cover::Exact(&["l.eq"])),
-    ("vm.list.not_equal l != x", Cover::Exact(&["l.ne"])),
+    ("vm.list.equal l == x / x == l / inside tuples", Cover::Exact(&["l.eq", "l.eq.rhs", "l.eq.tuple", "l.eq.tuple_rhs"])),
+    ("vm.list.not_equal l != x / x != l", Cover::Exact(&["l.ne", "l.ne.rhs"])),
     ("vm.list.add l + x", Cover::Exact(&["l.concat"])),
     ("vm.size size l", Cover::Exact(&["l.size", "m.size"])),
     ("koto.copy", Cover::Exact(&["l.copy", "m.copy"])),
@@ -77,11 +77,65 @@ const VM_TABLE: &[(&str, Cover)] = &[
     ("vm.map.index m[i]", Cover::Exact(&["m.index"])),
     ("vm.map.display '{m}'", Cover::Exact(&["m.display"])),
     ("vm.map.debug '{m:?}'", Cover::Exact(&["m.debug"])),
-    ("vm.map.equal m == x", Cover::Exact(&["m.eq"])),
+    ("vm.map.equal m == x / x == m / inside tuples", Cover::Exact(&["m.eq", "m.eq.rhs", "m.eq.tuple", "m.eq.tuple_rhs"])),
+    ("vm.map.not_equal m != x / x != m", Cover::Exact(&["m.ne", "m.ne.rhs"])),
     ("vm.map.iteration (for)", Cover::Compound(&["map.for"])),
     ("vm.map.index_assign m[i] = (k, v)", Cover::NoData("NOT COVERED: replaces an entry by swap_remove + insert + swap_indices under one guard; panics on a duplicate key (F-C06-4), kept out")),
     ("tuple / string", Cover::NoData("immutable (Ptr<[KValue]> / Ptr<str>): no cell, nothing to lock; a tuple holding a list shares that list's cell")),
 ];
+
+/// `pub fn`s of types/map.rs (ValueMap, KMap) and types/list.rs (KList): the crate's host API.
+/// "host:<op>" = driven from Rust threads by the host-API stress (exact check); other entries say
+/// why there is nothing to drive.
+const HOST_TABLE: &[(&str, &str, &str)] = &[
+    ("map", "with_capacity", "constructor"),
+    ("map", "make_data_slice", "ValueMap method: works on data the caller has already borrowed"),
+    ("map", "new", "constructor"),
+    ("map", "with_type", "constructor"),
+    ("map", "with_data", "constructor"),
+    ("map", "with_contents", "constructor"),
+    ("map", "from_data_and_meta_maps", "clones the two handles"),
+    ("map", "data", "host:has host:geti (read guard handed to the caller)"),
+    ("map", "data_mut", "write guard handed to the caller; used by every script-level map operation"),
+    ("map", "meta_map", "meta map handle"),
+    ("map", "set_meta_map", "meta map handle of this KMap value (&mut self)"),
+    ("map", "contains_meta_key", "meta map"),
+    ("map", "get", "host:get"),
+    ("map", "get_meta_value", "meta map"),
+    ("map", "insert", "host:ins"),
+    ("map", "remove", "host:rem"),
+    ("map", "remove_path", "host:rempath"),
+    ("map", "insert_meta", "meta map (&mut self)"),
+    ("map", "add_fn", "KMap::insert of a native function: same path as host:ins"),
+    ("map", "len", "host:size"),
+    ("map", "is_empty", "host:isempty"),
+    ("map", "clear", "host:clear"),
+    ("map", "is_same_instance", "pointer comparison"),
+    ("map", "is_same_meta_instance", "pointer comparison"),
+    ("map", "meta_type", "meta map"),
+    ("map", "display", "script form m.display / m.debug"),
+    ("list", "with_capacity", "constructor"),
+    ("list", "with_data", "constructor"),
+    ("list", "from_slice", "constructor"),
+    ("list", "len", "host:size"),
+    ("list", "is_empty", "host:isempty"),
+    ("list", "data", "host:first host:last host:geth host:snap"),
+    ("list", "data_mut", "host:push host:pop host:clear"),
+    ("list", "is_same_instance", "pointer comparison"),
+    ("list", "display", "script form l.display / l.debug"),
+];
+
+fn pub_fn_names(path: &str) -> Option<Vec<String>> {
+    let src = std::fs::read_to_string(path).ok()?;
+    let mut out = vec![];
+    for part in src.split("pub fn ").skip(1) {
+        let name: String = part.chars().take_while(|c| c.is_alphanumeric() || *c == '_').collect();
+        if !name.is_empty() && !out.contains(&name) {
+            out.push(name);
+        }
+    }
+    Some(out)
+}
 
 fn repo_root() -> String {
     std::env::var("KOTO_REPO").unwrap_or_else(|_| "/repo".to_string())
@@ -123,6 +177,27 @@ fn check_op_table() -> (Vec<String>, Value) {
                 }
             }
         }
+    }
+    for module in ["list", "map"] {
+        let path = format!("{}/crates/runtime/src/types/{}.rs", repo_root(), module);
+        match pub_fn_names(&path) {
+            None => problems.push(format!("cannot read {}", path)),
+            Some(names) => {
+                for n in &names {
+                    if !HOST_TABLE.iter().any(|(m, t, _)| *m == module && t == n) {
+                        problems.push(format!("host API {}::{} ({}) has no entry in the C19 host-API table", if module == "map" { "KMap" } else { "KList" }, n, path));
+                    }
+                }
+                for (m, t, _) in HOST_TABLE.iter().filter(|(m, _, _)| *m == module) {
+                    if !names.iter().any(|n| n == t) {
+                        problems.push(format!("host-API table lists {}::{} which {} no longer defines", m, t, path));
+                    }
+                }
+            }
+        }
+    }
+    for (m, t, why) in HOST_TABLE {
+        listing.insert(format!("host.{}.{}", if *m == "map" { "KMap" } else { "KList" }, t), json!(why));
     }
     for (prefix, table) in [("core.list.", LIST_TABLE), ("core.map.", MAP_TABLE), ("", VM_TABLE)] {
         for (name, c) in table {
@@ -192,6 +267,11 @@ fn make_form(tag: &str, rng: &mut Rng, len: usize, vals: &[i64], t: i64) -> Op {
         "l.debug" => Op::SnapVia("debug"),
         "l.eq" => Op::EqTo(vals.to_vec()),
         "l.ne" => Op::NeTo(vals.to_vec()),
+        "l.eq.rhs" if vals.len() <= 50 => Op::EqVia("rhs", vals.to_vec()),
+        "l.eq.tuple" if vals.len() <= 50 => Op::EqVia("tuple", vals.to_vec()),
+        "l.eq.tuple_rhs" if vals.len() <= 50 => Op::EqVia("tuple_rhs", vals.to_vec()),
+        "l.ne.rhs" if vals.len() <= 50 => Op::EqVia("ne_rhs", vals.to_vec()),
+        "l.eq.rhs" | "l.eq.tuple" | "l.eq.tuple_rhs" | "l.ne.rhs" => Op::EqTo(vals.to_vec()),
         "l.concat" => Op::SnapVia("concat"),
         "l.size" => Op::Size,
         "l.copy" => Op::SnapVia("copy"),
@@ -220,6 +300,11 @@ fn make_form(tag: &str, rng: &mut Rng, len: usize, vals: &[i64], t: i64) -> Op {
         "m.display" => Op::MSnapVia("display"),
         "m.debug" => Op::MSnapVia("debug"),
         "m.eq" => Op::MEqTo(vals.iter().map(|k| (*k, k * 10)).collect()),
+        "m.eq.rhs" => Op::MEqVia("rhs", vals.iter().map(|k| (*k, k * 10)).collect()),
+        "m.eq.tuple" => Op::MEqVia("tuple", vals.iter().map(|k| (*k, k * 10)).collect()),
+        "m.eq.tuple_rhs" => Op::MEqVia("tuple_rhs", vals.iter().map(|k| (*k, k * 10)).collect()),
+        "m.ne" => Op::MEqVia("ne", vals.iter().map(|k| (*k, k * 10)).collect()),
+        "m.ne.rhs" => Op::MEqVia("ne_rhs", vals.iter().map(|k| (*k, k * 10)).collect()),
         other => Op::Compound(Box::leak(other.to_string().into_boxed_str())),
     }
 }
@@ -250,18 +335,21 @@ fn gen_pair(rng: &mut Rng, tag: &'static str, big: bool, n_threads: usize, round
             for j in 0..n_ops {
                 let k = if keys.is_empty() || rng.chance(1, 3) { base + if big { 400 + rng.range(0, 99) } else { rng.range(4, 9) } } else { *rng.pick(&keys) };
                 let v = 600_000 + t as i64 * 1000 + j as i64;
-                p.push(match rng.weighted(&[5, 2, 3, 5, 1]) {
+                p.push(match rng.weighted(&[5, 2, 3, 5, 1, 3, 1]) {
                     0 => Op::Ins(k, v),
                     1 => Op::Ins1(k),
                     2 => Op::Put(k, v),
                     3 => Op::Rem(k),
-                    _ => Op::MClear,
+                    4 => Op::MClear,
+                    // one operation that changes several entries
+                    5 => Op::MExtend(keys.iter().take(12).map(|k| (*k, v)).collect()),
+                    _ => Op::MSort,
                 });
             }
             progs.push(p);
             delays.push(rng.below(max_delay));
         }
-        Stress { kind: "pair-map", init: St::M(init), progs, rounds, rewrite: None, delays }
+        Stress { kind: "pair-map", init: St::M(init), progs, rounds, rewrite: None, delays, host: vec![] }
     } else {
         let n = if big { 1200 } else { rng.below(5) };
         let mut vals: Vec<i64> = (0..n as i64).map(|i| if big { 1000 + i } else { i }).collect();
@@ -276,19 +364,23 @@ fn gen_pair(rng: &mut Rng, tag: &'static str, big: bool, n_threads: usize, round
             for j in 0..n_ops {
                 let v = 600_000 + t as i64 * 1000 + j as i64;
                 let idx = if rng.chance(1, 2) { rng.below(3) } else { n / 2 };
-                p.push(match rng.weighted(&[6, 5, 3, 3, 3, 1, 2]) {
+                p.push(match rng.weighted(&[6, 5, 3, 3, 3, 1, 2, 2, 1, 1, 1]) {
                     0 => Op::Push(v),
                     1 => Op::Pop,
                     2 => Op::Insert(idx, v),
                     3 => Op::Remove(idx),
                     4 => Op::Set(idx, v),
                     5 => Op::Clear,
-                    _ => Op::Resize(if rng.chance(1, 2) { n + 1 } else { n.saturating_sub(1) }, v),
+                    6 => Op::Resize(if rng.chance(1, 2) { n + 1 } else { n.saturating_sub(1) }, v),
+                    7 => Op::Extend(vec![v, v + 1, v + 2]),
+                    8 => Op::Fill(v),
+                    9 => Op::Reverse,
+                    _ => Op::Sort,
                 });
             }
             progs.push(p);
             delays.push(rng.below(max_delay));
         }
-        Stress { kind: "pair-list", init: St::L(vals), progs, rounds, rewrite: None, delays }
+        Stress { kind: "pair-list", init: St::L(vals), progs, rounds, rewrite: None, delays, host: vec![] }
     }
 }
